@@ -252,12 +252,34 @@ func walSegments(im *crashfs.Image) map[uint32]bool {
 }
 
 type runner struct {
-	base   string
-	p      *vr.Partial
-	groups []uint64
+	base      string
+	p         *vr.Partial
+	groups    []uint64
+	curImg    *crashfs.Image
+	curRec    *recovered
+	curKeys   []string
+	confirmed map[string]bool
+}
+
+// confirm re-recovers a failing image from a fresh copy and demands the identical result.
+func (rn *runner) confirm() {
+	first := *rn.curRec
+	for i := 0; i < 2; i++ {
+		again := recoverImage(filepath.Join(rn.base, "case"), rn.curImg, rn.curKeys, rn.groups)
+		if again.DBErr != first.DBErr || fmt.Sprint(again.Vals) != fmt.Sprint(first.Vals) || fmt.Sprint(again.RaftErr) != fmt.Sprint(first.RaftErr) || fmt.Sprint(again.Raft) != fmt.Sprint(first.Raft) {
+			vr.Fatalf("non-deterministic recovery of image %s", rn.curImg.Describe())
+		}
+	}
 }
 
 func (rn *runner) viol(h Hist, sig, desc string) {
+	if rn.curImg != nil && !rn.confirmed[sig] {
+		if rn.confirmed == nil {
+			rn.confirmed = map[string]bool{}
+		}
+		rn.confirmed[sig] = true
+		rn.confirm()
+	}
 	blob, _ := json.Marshal(h)
 	rn.p.Viol(sig, "history "+h.String()+": "+desc, string(blob))
 }
@@ -387,6 +409,7 @@ func (rn *runner) run(h Hist) {
 		p.Mark("point_classes", pt.Class())
 		done := pt.Op == "mark" && pt.Name == "done"
 		rec := recoverImage(filepath.Join(rn.base, "case"), pt.Image, keys, rn.groups)
+		rn.curImg, rn.curRec, rn.curKeys = pt.Image, &rec, keys
 		segs := walSegments(pt.Image)
 		by := func(seg uint32) string {
 			if segs[seg] {
